@@ -52,6 +52,7 @@ type Clause struct {
 	NParams int           // number of parameters of the synthetic function taken from the callee (callsite clauses)
 	ExtraNames []string
 	ExtraTypes []string
+	RecvOnly   bool // rule clause: the synthetic function takes only the receiver
 }
 
 func splitTopCommas(s string) []string {
@@ -97,6 +98,10 @@ type Block struct {
 	Flags    map[string]bool // pure, lemma, trusted, overflow, may-diverge, panics-never, opaque, inline
 	Modifies []string
 	Fuel     int
+	IsRule   bool
+	Exclude  map[string]bool
+	PropKinds map[string][]string // optional obligation-kind filter per property
+	FromRule *Block
 	PkgName  string
 	// resolved
 	RecvName   string
@@ -376,6 +381,14 @@ func parseBlocks(fset *token.FileSet, path string, src []byte, pkgPath string) (
 				continue
 			}
 			word, rest := splitWord(body)
+			if word == "rule" {
+				flush()
+				cur = &Block{Header: "func " + rest + " __rule()", Pkg: pkgPath, File: path, Line: line, Loops: map[int]*LoopSpec{}, Flags: map[string]bool{}, IsRule: true, Exclude: map[string]bool{}}
+				if err := parseHeader(cur); err != nil {
+					return nil, fmt.Errorf("%s:%d: %v", path, line, err)
+				}
+				continue
+			}
 			if word == "func" {
 				flush()
 				cur = &Block{Header: body, Pkg: pkgPath, File: path, Line: line, Loops: map[int]*LoopSpec{}, Flags: map[string]bool{}}
@@ -412,8 +425,24 @@ func parseBlocks(fset *token.FileSet, path string, src []byte, pkgPath string) (
 					return nil, fmt.Errorf("%s:%d: bad fuel", path, line)
 				}
 				cur.Fuel = n
+			case "exclude":
+				if cur.Exclude == nil {
+					cur.Exclude = map[string]bool{}
+				}
+				for _, n := range strings.Fields(rest) {
+					cur.Exclude[n] = true
+				}
 			case "props":
-				cur.Props = append(cur.Props, strings.Fields(rest)...)
+				for _, pw := range strings.Fields(rest) {
+					if i := strings.Index(pw, ":"); i > 0 {
+						if cur.PropKinds == nil {
+							cur.PropKinds = map[string][]string{}
+						}
+						cur.PropKinds[pw[:i]] = strings.Split(pw[i+1:], ",")
+						pw = pw[:i]
+					}
+					cur.Props = append(cur.Props, pw)
+				}
 			case "requires":
 				cl, err := mk(KRequires, rest, -1)
 				if err != nil {
@@ -666,7 +695,7 @@ func synthesize(blocks []*Block, counter *int) string {
 			emit(blk, cl, nil, nil, false, "bool")
 		}
 		for _, cl := range blk.Post {
-			emit(blk, cl, nil, nil, true, "bool")
+			emit(blk, cl, nil, nil, !blk.IsRule, "bool")
 		}
 		for _, cl := range blk.PanicsIf {
 			emit(blk, cl, nil, nil, false, "bool")
@@ -908,6 +937,15 @@ func Load(repo string, patterns []string) (*Loaded, error) {
 		if sp == nil {
 			return nil, fmt.Errorf("no SSA package %s", b.Pkg)
 		}
+		if b.IsRule {
+			if err := bindClauses(sp, b); err != nil {
+				return nil, err
+			}
+			for _, cl := range append(append(append([]*Clause{}, b.Pre...), b.Callsite...), b.Post...) {
+				cl.RecvOnly = true
+			}
+			continue
+		}
 		fn := lookupFunc(prog, sp, b)
 		if fn == nil {
 			return nil, fmt.Errorf("%s:%d: contract target not found in SSA: %s", b.File, b.Line, b.Header)
@@ -944,7 +982,101 @@ func Load(repo string, patterns []string) (*Loaded, error) {
 			}
 		}
 	}
+	if err := expandRules(ld); err != nil {
+		return nil, err
+	}
 	return ld, nil
+}
+
+func bindClauses(sp *ssa.Package, b *Block) error {
+	var cls []*Clause
+	cls = append(cls, b.Pre...)
+	cls = append(cls, b.Post...)
+	cls = append(cls, b.PanicsIf...)
+	cls = append(cls, b.Callsite...)
+	for _, cl := range cls {
+		f := sp.Func(cl.SynName)
+		if f == nil {
+			return fmt.Errorf("%s:%d: synthetic clause function %s missing", cl.File, cl.Line, cl.SynName)
+		}
+		cl.Fn = f
+	}
+	return nil
+}
+
+// expandRules creates one implicit block per method of a rule's receiver type
+// and adds the rule's clauses to explicit blocks of such methods.
+func expandRules(ld *Loaded) error {
+	var rules []*Block
+	var rest []*Block
+	for _, b := range ld.Blocks {
+		if b.IsRule {
+			rules = append(rules, b)
+		} else {
+			rest = append(rest, b)
+		}
+	}
+	ld.Blocks = rest
+	for _, r := range rules {
+		sp := ld.SSA[r.Pkg]
+		tname := strings.TrimPrefix(r.RecvType, "*")
+		tn, ok := sp.Pkg.Scope().Lookup(tname).(*types.TypeName)
+		if !ok {
+			return fmt.Errorf("%s:%d: rule receiver type %s not found", r.File, r.Line, tname)
+		}
+		var recv types.Type = tn.Type()
+		if strings.HasPrefix(r.RecvType, "*") {
+			recv = types.NewPointer(recv)
+		}
+		ms := ld.Prog.MethodSets.MethodSet(recv)
+		var fns []*ssa.Function
+		for i := 0; i < ms.Len(); i++ {
+			fn := ld.Prog.MethodValue(ms.At(i))
+			if fn == nil || fn.Synthetic != "" {
+				continue
+			}
+			if !types.Identical(fn.Signature.Recv().Type(), recv) {
+				continue
+			}
+			fns = append(fns, fn)
+		}
+		sort.Slice(fns, func(i, j int) bool { return fns[i].Name() < fns[j].Name() })
+		for _, fn := range fns {
+			if r.Exclude[fn.Name()] {
+				continue
+			}
+			if eb := ld.ByFn[fn]; eb != nil {
+				eb.Pre = append(append([]*Clause{}, r.Pre...), eb.Pre...)
+				eb.Callsite = append(eb.Callsite, r.Callsite...)
+				for _, p := range r.Props {
+					if !contains(eb.Props, p) {
+						eb.Props = append(eb.Props, p)
+					}
+				}
+				if eb.PropKinds == nil && r.PropKinds != nil {
+					eb.PropKinds = r.PropKinds
+				}
+				for i := range eb.Pre {
+					eb.Pre[i].Index = i
+				}
+				continue
+			}
+			nb := &Block{Header: "func (" + r.RecvName + " " + r.RecvType + ") " + fn.Name(), Pkg: r.Pkg, PkgName: r.PkgName, File: r.File, Line: r.Line, Props: r.Props, Pre: r.Pre, Post: r.Post, Callsite: r.Callsite, Loops: map[int]*LoopSpec{}, Flags: map[string]bool{}, RecvName: r.RecvName, RecvType: r.RecvType, FuncName: fn.Name(), Target: fn, FromRule: r, PropKinds: r.PropKinds}
+			for k, v := range r.Flags {
+				nb.Flags[k] = v
+			}
+			for i, p := range fn.Params {
+				n := p.Name()
+				if i == 0 {
+					n = r.RecvName
+				}
+				nb.ParamNames = append(nb.ParamNames, n)
+			}
+			ld.Blocks = append(ld.Blocks, nb)
+			ld.ByFn[fn] = nb
+		}
+	}
+	return nil
 }
 
 // localParamNames: loop variables may shadow parameter names in the synthetic
